@@ -257,3 +257,29 @@ Example C19_constraints_example :
     = [(Some 0, 0); (Some 1, 1); (None, 2); (None, 3)] /\
   map snd (clock_constraints st) = [8000000].
 Proof. vm_compute. split; reflexivity. Qed.
+
+(* ------------------------------------------------------------------ build plan (Platform.prepare + constraint file) *)
+(* For every vendor, table, connector table, design history, default_clk/default_rst and set of granted ports
+   the design leaves unbuffered: if the build is not refused, the requests of create_missing_domain continue the
+   history; the pins named by the constraint lines are a sub-list of the allocation of that final state (hence
+   each line names a pin owned by a granted request), no pin is named twice, and the clock constraints are the
+   recorded ones (none in the Apicula .cst). *)
+Theorem C19_build_plan_exact v t cm hist dclk drst unused outs pl :
+  build v t cm hist dclk drst unused = (outs, inr pl) ->
+  outs = snd (run t cm hist) /\
+  exists st outs', run t cm (hist ++ sys_reqs dclk drst) = (st, outs') /\
+    subl (map c_pin (pl_constraints pl)) (map fst (phys_reqd st)) /\
+    NoDup (map c_pin (pl_constraints pl)) /\
+    pl_clocks pl = (if vendor_clocks v then io_clocks st else []).
+Proof. exact (build_spec v t cm hist dclk drst unused outs pl). Qed.
+Print Assumptions C19_build_plan_exact.
+
+(* non-vacuity: a (clock) and c are requested by the design, c's port stays unbuffered, default_clk = resource 0
+   is already taken -> refused with ResourceError(already requested); without default_clk the iCE40 plan has the
+   two bits of a, and the clock of the unbuffered c is still constrained *)
+Example C19_build_example :
+  snd (build VIce40 ex_tbl ex_cm [ex_req 0; ex_req 2] (Some 0) None [((2, 0), [])]) = inl (EResource RAgain) /\
+  exists pl, snd (build VIce40 ex_tbl ex_cm [ex_req 0; ex_req 2] None None [((2, 0), [])]) = inr pl /\
+    map (fun c => (c_bit c, c_pin c)) (pl_constraints pl) = [(Some 0, 0); (Some 1, 1)] /\
+    map snd (pl_clocks pl) = [8000000].
+Proof. split; [vm_compute; reflexivity|]. eexists. split; [vm_compute; reflexivity|]. split; reflexivity. Qed.
